@@ -131,11 +131,13 @@ func check(sc Scenario, ex execution) ([]violation, facts) {
 		if r.K == "shutret" {
 			shutCalls++
 			switch {
-			case r.Err == nil || errors.Is(r.Err, contextCanceled):
+			case r.Err == nil:
+				nilOrCtx++
+			case r.CtxErr != nil && errors.Is(r.Err, r.CtxErr):
 				nilOrCtx++
 			case r.Err == sse.ErrProviderClosed: //nolint:errorlint
 			default:
-				bad("C07", "Shutdown returned unexpected error %v", r.Err)
+				bad("C07", "Shutdown returned %v, which is neither nil, ErrProviderClosed nor its context's error (%v)", r.Err, r.CtxErr)
 			}
 		}
 	}
@@ -256,6 +258,7 @@ func check(sc Scenario, ex execution) ([]violation, facts) {
 				}
 				if sv.ownErrAt >= 0 && sv.ownErr == errWriter { //nolint:errorlint
 					bad("C06", "s%d's writer was called again (%s) after it had failed", s, r.String())
+					bad("C17", "s%d's writer was called again (%s) after it had failed: a subscriber whose Send or Flush fails is removed", s, r.String())
 				}
 				if r.Err != nil && sv.ownErrAt < 0 {
 					sv.ownErrAt, sv.ownErr = i, r.Err
@@ -284,6 +287,7 @@ func check(sc Scenario, ex execution) ([]violation, facts) {
 			case sv.ownErr != nil && !raced:
 				if got != sv.ownErr { //nolint:errorlint
 					bad("C06", "s%d's own %v (record %d) was not returned by Subscribe: got %v", s, sv.ownErr, sv.ownErrAt, got)
+					bad("C17", "s%d's own %v (record %d) was not returned by Subscribe: got %v", s, sv.ownErr, sv.ownErrAt, got) // C17 states it too: the failing subscriber "gets the error from Subscribe"
 				}
 			case sv.ownErr != nil:
 				if got != nil && got != sv.ownErr { //nolint:errorlint
